@@ -13,7 +13,8 @@ GROUP = {"sleep": "sleep", "standby": "standby", "tx_start": "tx_start", "cw": "
          "rx_gain": "rx_start", "set_rx": "rx_start", "cad_start": "cad_start", "cad_params": "cad_start", "set_cad": "cad_start",
          "pkt_status": "reads", "rssi_inst": "reads", "rx_buffer_status": "reads", "read_buffer": "reads", "fetch": "reads",
          "tx_power": "tx_power", "pa_cfg": "tx_power", "tx_params": "tx_power", "tx_clamp": "tx_power", "init": "init",
-         "dio2_rf_switch": "init", "pkt_type": "init", "retention_add": "init"}
+         "dio2_rf_switch": "init", "pkt_type": "init", "retention_add": "init", "reg_mode": "init", "clear_device_errors": "init",
+         "tcxo_ctrl": "init", "calibrate": "init"}
 
 
 def _fam(chip):
@@ -71,6 +72,7 @@ def run():
                 "distinct = distinct (driver, chip, operation, arguments[, prior registers], payload length)",
         "cases_per_driver_chip_op": per, "operations": ops, "known_deviation_matches": known,
         "reference_events_rejected": 0,
+        "clear_device_errors_with_surplus_trailing_nop": sum(1 for r in res for t in r["info"] if "surplus trailing NOPs" in t),
         "samples": [samples[k] for k in sorted(samples)][:6],
         "exhaustive": False,
         "explanation": ("thorough: all SF x BW x CR x LDRO x 6 prior TxModulation bytes; packet parameters 11 preambles x header/CRC/IQ "
@@ -93,8 +95,12 @@ def run():
         "values lora-phy chooses where the data sheet gives none are pinned to its documented sources: CAD detPeak = SF+13 / detMin = 10 "
         "(Semtech CAD guide), ramp 40 us before TX and 200/250 us at start-up; image calibration outside the five bands of table 9-2 "
         "is only checked for well-formedness",
-        "operations without a reference counterpart on the wire (SX127x packet fetch, SX127x image calibration, TCXO/DC-DC start-up "
-        "branches, LR11xx) are not compared",
+        "start-up with DC-DC regulator and TCXO (SetRegulatorMode, ClearDeviceErrors, SetDio3AsTcxoCtrl with the 10 ms board delay, "
+        "Calibrate(all)) is compared for all 8 TCXO voltages x both regulator modes x 4 chip variants; lora-phy clocks ClearDeviceErrors "
+        "with one more NOP than the data sheet frame / the reference (07 00 00 00 vs 07 00 00): for this parameterless command the "
+        "comparison is 'up to surplus trailing NOPs' (chip state does not depend on how many status bytes the host clocks out); the "
+        "number of such cases is reported as clear_device_errors_with_surplus_trailing_nop",
+        "operations without a reference counterpart on the wire (SX127x packet fetch, SX127x image calibration, LR11xx) are not compared",
     ])
 
 
